@@ -29,6 +29,7 @@ import M4riProofs.GenTiePleFinal
 import M4riProofs.GenTieGlue
 import M4riProofs.GenTieClose4
 import M4riProofs.GenTieTop
+import M4riProofs.GenTieMax
 namespace M4ri.Props.C06
 open M4ri M4ri.BMat
 
@@ -126,3 +127,9 @@ end M4ri.Props.C06
 #check @M4ri.GenTieTop.solveLeftTop_congr
 #check @M4ri.GenTieTop.pluqSolveLeft_closed
 #check @M4ri.GenTieTop.extra_needed
+
+/-! ### AS MUCH GENERATED CODE AS POSSIBLE AT ONCE (GenTieMax.lean): the generated `_mzd_solve_left` over `cPluqMax` (see C03) and over the generated
+    `_mzd_pluq_solve_left` whose two triangular solves are the closed generated recursions and whose product is the generated `mzd_addmul`, all over
+    the generated `_mzd_add`: verdict 0 iff solvable, and then a solution -/
+#check @M4ri.GenTieMax.pluqSolveLeft_closedG
+#check @M4ri.GenTieMax.c_solve_left_max
